@@ -24,6 +24,13 @@ _LATEX = r"""#!/bin/sh
 tex="$1"; out="$2"
 printf 'latex\t%s\t%s\n' "$tex" "$out" >> '@LOG@'
 if [ ! -f "$tex" ]; then exit 3; fi
+# a converter that is still working when the flow ends: while the file LOG.hold exists it waits
+# for LOG.go (written by the harness when the source of the flow is exhausted); bounded, so
+# that nothing can hang - the bound only ends the wait, it decides nothing
+if [ -f '@LOG@.hold' ]; then
+  i=0
+  while [ ! -f '@LOG@.go' ] && [ $i -lt 600 ]; do sleep 0.01; i=$((i+1)); done
+fi
 # a tex file with an error in it: the converter fails and writes nothing
 if grep -q FAILLATEX "$tex"; then echo "! LaTeX Error" >&2; exit 1; fi
 # a converter terminated by a signal (memory limit, batch system): no output either
